@@ -560,8 +560,13 @@ type FTF struct {
 	DenomReads int
 }
 
+// Burn follows the pinned fiat-token-factory contract: it can succeed only for a strictly positive
+// amount of the minting denom (msg_server_burn.go); within that it fails arbitrarily.
 func (f *FTF) Burn(ctx sdk.Context, msg *fiattokenfactorytypes.MsgBurn) (*fiattokenfactorytypes.MsgBurnResponse, error) {
 	err := NondetErr("burn_err_" + strconv.Itoa(len(f.Burns)))
+	if err == nil && !All(msg.Amount.Denom == f.MintDenom, IntCmp(msg.Amount.Amount, IntU64(0)) > 0) {
+		err = ndErr{"burn-contract"}
+	}
 	f.Burns = append(f.Burns, *msg)
 	f.BurnErrs = append(f.BurnErrs, err)
 	if err != nil {
@@ -760,3 +765,13 @@ func LowerEq(got, s string) bool { return got == strings.ToLower(s) }
 
 // PRIMITIVE. ModuleAddr is the account address of the named module.
 func ModuleAddr(name string) []byte { return authtypes.NewModuleAddress(name) }
+
+// PRIMITIVE. Lower is the lower-casing of s.
+func Lower(s string) string { return strings.ToLower(s) }
+
+// PRIMITIVE. IntToBytes32 is the 32-byte big-endian encoding of a (0 <= a < 2^256).
+func IntToBytes32(a math.Int) []byte {
+	out := make([]byte, 32)
+	a.BigInt().FillBytes(out)
+	return out
+}
